@@ -108,6 +108,14 @@ def client_program(rng, c, avoid, hc_names):
                 s2.lfs = spec.lfs
                 genmeta.Meta(s2, lfi, rng, hc=hc_names).add(gen.pick(rng, ['zone', 'comment', 'message', 'equipment']))
                 prog.extend(s2.ops)
+            elif r >= 0.85:
+                # the next file of a storage set / sequence from the same specification: label or header changed between writes
+                if rng.random() < 0.5:
+                    prog.append({'op': 'set_fh', 'lf': lfi['lf'], 'prop': 'sequence_number', 'v': rng.choice([2, 3, 77, 99999]), 'c': c})
+                else:
+                    prog.append({'op': 'set_sul', 'fid': spec.fid, 'prop': rng.choice(['sequence_number', 'set_identifier']),
+                                 'v': None, 'c': c})
+                    prog[-1]['v'] = rng.choice([2, 9, 345]) if prog[-1]['prop'] == 'sequence_number' else 'SET-%d' % rng.randint(0, 99)
             elif r < 0.85 and r >= 0.7:
                 # an assignment that is rejected while the client carries on
                 bop = gen.rejected_assignment(rng, [o for o in spec.ops if o.get('op') == 'add'], c=c)
